@@ -196,6 +196,7 @@ def gen(run):
 def _trace_job(seeds):
     try:
         p = probe()
+        ev = p.session().eval if seeds and (seeds[0] // 50) % 2 else p.eval       # every second batch: ONE Executor for the whole sequence
         out = []
         for sd in seeds:
             rng = random.Random(sd)
@@ -205,7 +206,7 @@ def _trace_job(seeds):
             if rng.random() < 0.3 and s > 0:            # force a tie at some position
                 m = (m // 10) * 10 + 5 * (1 if m >= 0 else 1)
             x = pyval(m, s)
-            res = p.eval([(0, 0, 0, x)], idxs=range(31))
+            res = ev([(0, 0, 0, x)], idxs=range(31))
             k = 0
             for _, f in FUNS:
                 for n in NS:
